@@ -104,6 +104,12 @@ Theorem C11_simplify_sound_partial : forall e, in_fragment e = true -> avoids_de
 Proof. exact simplify_sound_fragment. Qed.
 Print Assumptions C11_simplify_sound_partial.
 
+(* the dialect of the claim: the checker issues diagnostics only at call sites that compile the pattern in the
+   Perl dialect; the tie compares the set of call kinds with diagnostics with [reacting_calls] on every run *)
+Theorem C11_diagnostics_only_at_perl_sites : forall call, reacts call = true -> call_dialect call = Some Perl.
+Proof. exact diagnostics_only_at_perl_sites. Qed.
+Print Assumptions C11_diagnostics_only_at_perl_sites.
+
 (* the state-free elaboration used by in_fragment agrees with the elaboration tied to Go's regexp *)
 Theorem C11_fragment_elaboration_agrees : forall e x st, d_fl st = flags0 -> sden e = Some x -> den e st = Some (x, st).
 Proof. exact sden_den. Qed.
